@@ -57,5 +57,5 @@ Proof. intros sc n s s' ->. reflexivity. Qed.
 Print Assumptions c03_framework_functional.
 
 Example c03_nonvacuous :
-  isort N N.leb [3; 1; 2]%N = isort N N.leb [2; 3; 1]%N /\ registered "maprange|mem|Storage.SaveCheckpoint|s.data|0" = true.
+  isort N N.leb [3; 1; 2]%N = isort N N.leb [2; 3; 1]%N /\ registered "maprange|mem|Storage.SaveCheckpoint|s.data|0|collect-sort" = true.
 Proof. vm_compute. split; reflexivity. Qed.
